@@ -24,7 +24,11 @@ class SymEnv:
         return self.ctx.sym(name, lo, hi)
 
     def z(self, name):
-        return self.ctx.symbols[name]
+        v = self.ctx.symbols[name]
+        for sym, val in self.ctx.bindings:      # the path fixed this symbol to a constant (K-way choice, == branch)
+            if sym.eq(v):
+                return val
+        return v
 
     def assume(self, cond):
         self.ctx.assume_base(cond)
